@@ -87,6 +87,13 @@ pub enum WriteError {
 /// Serialise a chunk sequence (terminated with the 0x00 end byte).
 /// The LZMA state (model) is carried across chunks exactly as the format says.
 pub fn write(chunks: &[Chunk]) -> Result<Written, WriteError> {
+    write_with(chunks, false)
+}
+
+/// `allow_bad_ref`: encode copies with invalid distances anyway, coding the
+/// rest as a guard-less decoder fabricating zeros would see it (for streams
+/// that must be rejected).
+pub fn write_with(chunks: &[Chunk], allow_bad_ref: bool) -> Result<Written, WriteError> {
     let mut w = Written::default();
     let mut model = Model::new(Props::new(0, 0, 0));
     let mut hist: Vec<u8> = Vec::new();
@@ -138,6 +145,10 @@ pub fn write(chunks: &[Chunk]) -> Result<Written, WriteError> {
                 }
                 let before = hist.len();
                 let mut enc = Encoder::new(&mut model, &mut hist);
+                if allow_bad_ref {
+                    enc.allow_bad_ref = true;
+                    enc.fabricate = Some(0);
+                }
                 enc.push_all(prog)
                     .map_err(|e| WriteError::Encode(ci, e))?;
                 let (payload, table, _) = enc.finish();
